@@ -67,7 +67,7 @@ impl Notify {
 
             state.notified = true;
 
-            let (active, inactive) = execution.threads.split_active();
+            let (_, inactive) = execution.threads.split_active();
 
             for thread in inactive {
                 let obj = thread
@@ -80,9 +80,10 @@ impl Notify {
 
                     // Wake the waiter. (This is not `Thread::unpark`: a thread
                     // that is not blocked in `Notify::wait` must not be handed
-                    // a `park` token.)
-                    thread.causality.join(&active.causality);
-
+                    // a `park` token. And the waiter synchronizes with the
+                    // notifiers when it returns from `wait`, through
+                    // `synchronize`: a thread whose pending operation is its
+                    // own `notify` on this object must not acquire anything.)
                     if thread.is_blocked() {
                         thread.set_runnable();
                     }
